@@ -48,6 +48,11 @@ def handle : List String → String
       if holdsApply rs h o then "true"
       else s!"false fields-differ-from-documented-meaning rename={ofBool (renameSeen rs)}"
     | _, _, _ => "bad-op"
+  | ["holdsstep", rule, before, after] =>
+    match decodeRules rule, decodeMap before, decodeMap after with
+    | some [r], some b, some a =>
+      if holdsStep r b a then "true" else "false rule-step-differs-from-documented-meaning"
+    | _, _, _ => "bad-op"
   | ["applies", l, m] =>
     let l? : Option RuleList := match l with
       | "header" => some .header | "connect-header" => some .connectHeader
